@@ -539,10 +539,10 @@ class Interp:
                 raise AnalysisError(f"unmodelled del {ast.unparse(t)}")
             return True
         if isinstance(st, ast.Continue):
-            frame.exits.append(("continue", pc, None))
+            frame.exits.append(("continue", pc, self.snapshot(frame)))
             return False
         if isinstance(st, ast.Break):
-            frame.exits.append(("break", pc, None))
+            frame.exits.append(("break", pc, self.snapshot(frame)))
             return False
         if isinstance(st, ast.Global):
             return True
@@ -607,26 +607,39 @@ class Interp:
                 return True
             return live2
         items = self.lib.iterate(self, it)
+        breaks = []          # (absolute path condition, state at the break)
+        cur_pc = pc
+        live = True
         for item in items:
             self.assign(st.target, item, frame)
             n0 = len(frame.exits)
-            live = self.exec_block(st.body, frame, pc)
+            live = self.exec_block(st.body, frame, cur_pc)
             new = frame.exits[n0:]
-            loopx = [x for x in new if x[0] in ("continue", "break")]
-            if loopx:
-                # only unconditional continue/break relative to the loop's pc are modelled
-                # together with a dead fall-through; conditional ones need state joins
-                kinds = {x[0] for x in loopx}
-                conds = [x[1] for x in loopx]
-                del frame.exits[n0:]
-                frame.exits.extend(x for x in new if x[0] not in ("continue", "break"))
-                if all(cn == pc or cn is pc for cn in conds) and not live:
-                    if "break" in kinds:
-                        break
-                    continue
-                raise AnalysisError(f"conditional continue/break under a symbolic condition in {frame.qual}")
+            del frame.exits[n0:]
+            frame.exits.extend(x for x in new if x[0] not in ("continue", "break"))
+            conts = [(c, sn) for k, c, sn in new if k == "continue"]
+            brks = [(c, sn) for k, c, sn in new if k == "break"]
+            if conts:
+                state = self.snapshot(frame) if live else None
+                for c, sn in reversed(conts):
+                    state = sn if state is None else self.merge_states(c, sn, state)
+                self.restore(state)
+                live = True
+            for c, sn in brks:
+                breaks.append((c, sn))
+                cur_pc = sp.And(cur_pc, sp.Not(c)) if cur_pc is not sp.true else sp.Not(c)
             if not live:
-                return False
+                break
+        if breaks:
+            if st.orelse:
+                raise AnalysisError(f"for/else with break is not modelled ({frame.qual})")
+            state = self.snapshot(frame) if live else None
+            for c, sn in reversed(breaks):
+                state = sn if state is None else self.merge_states(c, sn, state)
+            self.restore(state)
+            return True
+        if not live:
+            return False
         if st.orelse:
             return self.exec_block(st.orelse, frame, pc)
         return True
